@@ -330,6 +330,84 @@ def observed_music(seqs, meta_index=0):
     return {"rolls": rolls, "ts": timesig_in_force(meta, (4, 4)), "ks": key_in_force(meta, None), "odd": odd_all}
 
 
+def held_music(seqs):
+    """The music a list of *held* sequences (objects with a history) carries, read harness-side from throw-away clones of
+    their fresh views so that the subjects' freshness state is what the save meets: rolls per sequence, signatures in force =
+    union over all sequences. None if the content is not well-formed any more (unpaired events, empty or overlapping notes
+    of one pitch, velocity outside 1..127) - then nothing is promised."""
+    clones = [observe.clone_seq(q) for q in seqs]
+    got = observed_music(clones)
+    if any(got["odd"]):
+        return None
+    for roll in got["rolls"]:
+        last = {}
+        for p, on, dur, vel in sorted(roll, key=lambda x: (x[0], x[1])):
+            if dur < 1 or vel is None or not 1 <= vel <= 127 or on < last.get(p, 0) or not 0 <= p <= 127:
+                return None
+            last[p] = on + dur
+    pts_t, pts_k = [], []
+    for c in clones:
+        for m in c.abs._messages:
+            if m.message_type is observe._TS:
+                pts_t.append((m.time, (m.numerator, m.denominator)))
+            elif m.message_type is observe._KS:
+                pts_k.append((m.time, m.key.value))
+    # two different signatures on one tick (from different sequences) have no defined winner
+    for pts in (pts_t, pts_k):
+        seen = {}
+        for t, v in pts:
+            if seen.setdefault(t, v) != v:
+                return None
+    return {"rolls": got["rolls"], "ts": function_in_force(sorted(pts_t, key=lambda x: x[0]), (4, 4)),
+            "ks": function_in_force(sorted(pts_k, key=lambda x: x[0]), None),
+            "ticks": sum(observe.abs_duration(c.abs._messages) for c in clones)}
+
+
+def apply_history(seq, hist, stats):
+    """Public operations between building a sequence and saving it (each one that raises is skipped): what is saved is then
+    an object with stale leftovers, a regenerated view, bar markers in the middle of a fresh absolute view ..."""
+    for op in hist:
+        try:
+            k = op[0]
+            if k == "pad":
+                seq.pad(seq.get_sequence_duration() + op[1])
+            elif k == "add_note":
+                end = seq.get_sequence_duration() + op[2]
+                seq.add_absolute_message(music.msg_from_dict({"t": "note_on", "ch": op[5], "time": end, "note": op[1], "velocity": op[4]}))
+                seq.add_absolute_message(music.msg_from_dict({"t": "note_off", "ch": op[5], "time": end + op[3], "note": op[1]}))
+            elif k == "transpose":
+                seq.transpose(op[1])
+            elif k == "quantise":
+                seq.quantise_and_normalise()
+            elif k == "normalise":
+                seq.normalise()
+            elif k == "copy":
+                seq = seq.copy()
+            elif k == "read_abs":
+                seq.abs
+            elif k == "read_rel":
+                seq.rel
+            elif k == "scale":
+                seq.scale(2, None, False)
+            elif k == "split_rejoin":
+                pieces = seq.split([op[1]])
+                seq = Sequence()
+                seq.concatenate(pieces)
+            elif k == "bars":
+                from scoda.elements.bar import Bar
+                seq = Bar.to_sequence(Sequence.sequences_split_bars([seq], 0, quantise_note_lengths=False)[0])
+            elif k == "detok":
+                from scoda.tokenisation.notelike_tokenisation import MultiTrackLargeVocabularyNotelikeTokeniser as _T
+                tok = _T(num_tracks=1)
+                seq = tok.detokenise(tok.tokenise([seq.copy()]))[0]
+            stats[f"reach_hist/{k}"] += 1
+        except core.RunTimeout:
+            raise
+        except Exception:
+            stats[f"reach_hist/{k}:raised-skipped"] += 1
+    return seq
+
+
 def compare_music(exp, got):
     if len(exp["rolls"]) != len(got["rolls"]):
         return f"number of sequences {len(got['rolls'])} != saved {len(exp['rolls'])}"
@@ -409,6 +487,22 @@ class DiskWorld:
         plan = ev.get("plan") or {}
         comp = None
         expected = None
+        held = None
+        if any(s.get("hist") for s in specs):
+            with_hist = [apply_history(q, s.get("hist") or [], self.stats) for q, s in zip(seqs, specs)]
+            try:
+                held = held_music(with_hist)
+            except core.RunTimeout:
+                raise
+            except Exception:
+                held = None
+            if held is not None and held.pop("ticks") <= 40000:
+                seqs = with_hist
+                self.stats["reach_save/sequences_with_a_history"] += 1
+            else:
+                held = None
+                seqs = [music.build_sequence(s["spec"], s["mode"]) for s in specs]
+                self.stats["reach_save/history_left_the_domain"] += 1
         if ev.get("via") == "composition":
             # Composition.save: the music that is saved is what the composition holds (bar splitting pads and may
             # re-quantise boundary-cut notes: C09's business); the expectation is read harness-side from its sequences.
@@ -476,7 +570,7 @@ class DiskWorld:
             self.log.add("save", name, "raised", type(exc).__name__, sorted(fired), len(self.disk.read_bytes(name)))
             return None
         # acknowledged
-        self.acked[name] = {"music": expected if comp is not None else expected_music(specs),
+        self.acked[name] = {"music": expected if comp is not None else (held if held is not None else expected_music(specs)),
                             "hard_fault_during_save": sorted(hard)}
         self.stats["reach_save/acknowledged"] += 1
         if hard:
@@ -632,7 +726,24 @@ def gen_seq_list(rng):
         for _ in range(rng.choice([0, 0, 0, 1])):
             spec["ccs"].append([rng.randrange(0, horizon + 1), ch, rng.randrange(0, 120), rng.randrange(0, 128)])
         out.append({"spec": spec, "mode": rng.choice(["abs", "rel", "both", f"insert:{rng.randrange(1, 1 << 20)}"])})
+        if rng.random() < 0.25:
+            out[-1]["hist"] = [_gen_hist_op(rng, ch) for _ in range(rng.randrange(1, 4))]
     return out
+
+
+def _gen_hist_op(rng, ch):
+    k = rng.choice(["pad", "pad", "add_note", "add_note", "add_note", "transpose", "quantise", "normalise", "copy", "read_abs",
+                    "read_rel", "scale", "split_rejoin", "bars", "detok"])
+    if k == "pad":
+        return ["pad", rng.choice([1, 6, 24, 48, rng.randrange(1, 100)])]
+    if k == "add_note":
+        return ["add_note", rng.randrange(21, 109), rng.choice([0, 0, 1, 6, 24, rng.randrange(0, 60)]), rng.choice([1, 6, 12, 24, 5]),
+                rng.randrange(1, 128), ch]
+    if k == "transpose":
+        return ["transpose", rng.choice([1, -1, 2, 5, -7])]
+    if k == "split_rejoin":
+        return ["split_rejoin", rng.choice([24, 48, 96, rng.randrange(1, 200)])]
+    return [k]
 
 
 def gen_plan(rng, direction, size_hint):
@@ -1245,6 +1356,13 @@ class LoadWorld:
 
     def apply(self, ev, idx):
         f = self.file
+        if ev.get("regroup"):
+            # the same file (and, on the midi_file / convert routes, the same parsed object) asked for under another grouping:
+            # what a conversion returns must depend on its arguments and on the file, not on what was asked before
+            f = dict(f, groups=ev["regroup"]["groups"], meta=ev["regroup"]["meta"], target=ev["regroup"]["target"])
+            self.stats["reach_load/regrouped"] += 1
+            if self.parsed is not None:
+                self.stats["reach_load/regrouped_on_a_parse_that_was_converted_before"] += 1
         plan = ev.get("plan") or {}
         self.disk.next_plan = plan
         self.disk.fired_now = set()
@@ -1320,6 +1438,31 @@ ENDURANCE = {"quick": 4, "thorough": 64}
 ENDURANCE_SIZES = {"quick": (45000, 60000), "thorough": (60000, 90000, 110000)}
 
 
+def gen_regroup(rng, f):
+    """Another grouping of the same file that never puts tracks of two different note owners into one group (the notes of one
+    owner are generated free of overlaps per (channel, pitch); across owners they are not): every original group is kept,
+    dropped (its tracks may stay on as meta-only tracks) or split into single tracks, a track outside every group may become a
+    group of its own."""
+    ntracks = len(f["tracks"])
+    orig = f["groups"] if f["groups"] is not None else [[i] for i in range(ntracks)]
+    groups = []
+    for g in orig:
+        r = rng.random()
+        if r < 0.5:
+            groups.append(list(g))
+        elif r < 0.75:
+            groups.extend([[t] for t in g])
+    inside = {t for g in orig for t in g}
+    for t in range(ntracks):
+        if t not in inside and rng.random() < 0.4:
+            groups.append([t])
+    if not groups:
+        groups = [list(rng.choice(orig))]
+    rng.shuffle(groups)
+    meta = sorted(rng.sample(range(ntracks), rng.randrange(0, ntracks + 1)))
+    return {"groups": groups, "meta": meta, "target": rng.randrange(len(groups))}
+
+
 def c13_run_one(seed, tier, index):
     rng = random.Random(seed)
     lane = "baseline" if rng.random() < 0.3 else "fault"
@@ -1342,9 +1485,12 @@ def c13_run_one(seed, tier, index):
     world = LoadWorld(init)
     events = []
     viol = None
-    for _ in range(1 if lane in ("baseline", "neartie") else rng.choice([1, 2, 3])):
+    for k in range(1 if lane == "neartie" else rng.choice([1, 1, 2]) if lane == "baseline" else rng.choice([1, 2, 3])):
         ev = {"op": "load", "plan": {"kind": "none", "buf": 8192} if lane in ("baseline", "neartie") else gen_plan(rng, "r", world.size),
               "route": rng.choice(["path", "path", "path", "midi_file", "midi_file", "convert", "positional"])}
+        if k > 0 and rng.random() < 0.6:
+            ev["regroup"] = gen_regroup(rng, f)
+            ev["route"] = rng.choice(["midi_file", "midi_file", "convert", "path"])
         events.append(ev)
         viol = world.apply(ev, len(events) - 1)
         if viol is not None or world.foreign:
@@ -1427,6 +1573,10 @@ def _c13_simplify(trace):
             t = dict(trace)
             t["events"] = evs[:j] + [dict(ev, plan={"kind": "none", "buf": 8192})] + evs[j + 1:]
             yield t
+        if ev.get("regroup"):
+            t = dict(trace)
+            t["events"] = evs[:j] + [{k: v for k, v in ev.items() if k != "regroup"}] + evs[j + 1:]
+            yield t
 
 
 class C13Engine(_DiskEngine):
@@ -1437,7 +1587,8 @@ class C13Engine(_DiskEngine):
             "controllers, pitch wheel) carrying delta times; music sometimes starting beyond 2**24 file ticks; written by mido or by a "
             "byte-level writer with running status) placed in the run's scratch directory and loaded 1-3 times by S-Coda with a random "
             "disjoint track grouping in any order, meta-track selection and meta target, each load with its own buffer size and fault "
-            "plan. Two further lanes: 'endurance' (one 10^5-note track per work chunk at an odd resolution) and 'near-tie' (1-2 % of runs: "
+            "plan; a later load may ask for another grouping of the same file (on the midi_file / convert routes: of the same parsed "
+            "object). Two further lanes: 'endurance' (one 10^5-note track per work chunk at an odd resolution) and 'near-tie' (1-2 % of runs: "
             "resolutions up to 32767 with a large reduced denominator, note events 1/(2q) from a rounding tie, thousands of small-delta "
             "filler messages). distinct_nontrivial counts distinct abstract histories (crc of (planned fault, fired faults, returned?, "
             "tpb, writer) per load) among runs with >=1 judged load AND >=1 fired fault.")
